@@ -18,7 +18,7 @@ ASSUMPTIONS = [
 CASES = {"quick": 5000, "thorough": 100000}
 MIN_CASES = {"quick": 1200, "thorough": 20000}
 REQUIRED_COUNTERS = ["roundtrips_compared", "second_write_compared", "modules_compared", "kind:soft", "kind:hard", "kind:flip", "kind:fixed", "kind:terminal",
-                     "multi_region_area_modules", "weighted_nets"]
+                     "multi_region_area_modules", "weighted_nets", "file_writes_compared"]
 
 
 def setup(ctx):
@@ -65,6 +65,16 @@ def check(case, ctx):
     if not ok or not isinstance(text, str):
         ctx.violation("write_raised", f"write_yaml failed: {text!r} :: {doc}")
         return
+    if case["cls"] in ("file", "handle"):
+        # writing to a file must produce the same document as writing to a string
+        import os
+        path = os.path.join(os.environ.get("FV_SCRATCH", "/tmp"), f"c04_{os.getpid()}.yaml")
+        ok, r = ctx.call(n1.write_yaml, path)
+        ctx.count("file_writes_compared")
+        if not ok or not os.path.exists(path) or open(path).read() != text:
+            ctx.violation("file_write_differs", f"write_yaml(filename) differs from write_yaml(): {r!r}")
+        if os.path.exists(path):
+            os.remove(path)
     ok, n2 = ctx.call(nu.load, text, "tree")
     if not ok:
         ctx.violation("written_document_rejected", f"reader rejected the written document: {type(n2).__name__}: {str(n2)[:200]} :: written=\n{text[:600]}")
